@@ -621,10 +621,16 @@ def _type_independent(run, rid, f, h):
     PURE = (CO + "::current", "std::ptr::from_ref", "*const T::cast", "std::ptr::from_mut", "*mut T::cast")
     bad = []
     for body in [h] + list(f.closures_of(h)):
+        bdu = DefUse(body)
+        curs = {x for (x, t) in body.calls() if norm(t.get("callee") or "") == CO + "::current"}
         for (x, t) in body.calls():
             full = t.get("callee_full") or ""
             if pat and pat.search(full) and norm(t.get("callee") or "") not in PURE:
-                bad.append("calls %s (line %s)" % (norm(t.get("callee") or ""), t.get("line")))
+                # an instance of a generic helper is harmless as long as it is not handed the current coroutine (a helper
+                # that reads the stack pointer out of the context does not care which instance it is)
+                gets_co = body is not h or any(any(y in curs for (y, _t) in backward(body, a, bdu, at=(x, "term"), through_calls="all").calls) for a in t["args"])
+                if gets_co:
+                    bad.append("calls %s (line %s)" % (norm(t.get("callee") or ""), t.get("line")))
         for blk in body.blocks:
             for s_ in blk["stmts"]:
                 if s_["k"] != "assign":
